@@ -9,5 +9,5 @@ CONSTANTS
   WithEmpty = TRUE
 VIEW view
 ACTION_CONSTRAINT PrintEdge
-INVARIANTS PrintInit RefsOK DiskOK ObjsCanon LatentUnreachable
+INVARIANTS PrintState RefsOK DiskOK ObjsCanon LatentUnreachable
 CHECK_DEADLOCK FALSE
